@@ -199,3 +199,13 @@ package storage
 //@   ensures forall(j, (0 <= j && j < result0) ==> p[j] == fcat(r.parts, old(rpos(r)) + j))
 //@   ensures result1 != nil ==> (r.curPart == len(r.parts) && rpos(r) == plen(r.parts, len(r.parts)))
 //@ end
+
+// C17 / C05: a disk part's reader hands out exactly the part's window [offset, offset+size) of the file
+// (rdoff / rdlen: the window of a bounded reader, whichever of io.LimitedReader-after-Seek or
+// io.SectionReader implements it)
+//@ func newDiskPartReader
+//@   props C17 C05
+//@   arith math
+//@   ensures result1 == nil ==> (result0 != nil && is(result0, *diskPartReader) && result0.(*diskPartReader).f != nil && result0.(*diskPartReader).r != nil)
+//@   ensures result1 == nil ==> (rdoff(result0.(*diskPartReader).r) == offset && rdlen(result0.(*diskPartReader).r) == size)
+//@ end
